@@ -14,7 +14,10 @@ Proof.
   intros s lb s' I H t Ht.
   pose proof (e_g1 _ _ _ I t Ht) as G1.
   pose proof (e_g1 _ _ _ I) as G1a.
-  Time step_inv_fine H; ssimpl; upd_cases; ssimpl; try lia.
-  Show.
+  Time step_inv_fine H.
+ Time all: ssimpl.
+ Time all: unfold upd.
+ Time all: repeat match goal with |- context [Nat.eqb ?a ?b] => destruct (Nat.eqb_spec a b); try subst; try congruence end.
+ Time all: ssimpl. Time all: try lia. Show.
 Abort.
 End P.
